@@ -16,7 +16,7 @@ def run(ctx):
     q = ctx.quick()
     rng = random.Random(ctx.seed)
     if q:
-        retry_gates = ("ds.upreset.retry", "ds.retry.begin", "ds.retry.pool", "ds.retry.chosen")
+        retry_gates = ("ds.upreset.retry", "ds.retry.begin", "ds.retry.pool", "ds.retry.chosen", "ds.pe#7", "ds.pe#8", "ds.pe#10")
         core = [c for c in cases if c["hold"] == "none" or (c["hold"] in retry_gates and c["hold2"] == "none") or c.get("steps")]
         three = [c for c in cases if c["hold2"] != "none"]
         rest = [c for c in cases if c not in core and c["hold2"] == "none"]
